@@ -48,6 +48,7 @@ CLI_ORDER = ['re', 'de', 'ra', 'ib']
 def cases(ctx):
     q = ctx.tier == 'quick'
     n = 3000 if q else 50000
+    ctx.new_phase()
     for i in range(n):
         if not ctx.time_left():
             break
